@@ -41,6 +41,8 @@ def main(argv=None) -> int:
         ap.error("property id required")
     prop = a.prop.upper()
     os.environ[common.GUARD] = "1"
+    if prop in NEEDS_TTY and not os.environ.get("VERIF_IN_PTY"):
+        return run_under_pty([sys.executable, "-m", "harness.main"] + (argv if argv is not None else sys.argv[1:]))
     sys.path.insert(0, str(common.REPO))
     try:
         mod = importlib.import_module(f"harness.{prop.lower()}")
@@ -74,6 +76,48 @@ def main(argv=None) -> int:
         return 2
     finally:
         ctx.close()
+
+
+# Properties whose harness constructs TupimageTerminal in-process: it always opens /dev/tty, so the
+# whole check is re-executed as the session leader of a fresh pty (its stdout/stderr stay ours).
+NEEDS_TTY = {"C08", "C09"}
+
+
+def run_under_pty(cmd) -> int:
+    import pty
+    import select
+    import fcntl
+    import struct
+    import termios
+
+    pid, master = pty.fork()
+    if pid == 0:
+        # child: controlling tty = the new pty slave (fd 0/1/2); restore our real stdout/stderr
+        os.dup2(SAVED_OUT, 1)
+        os.dup2(SAVED_ERR, 2)
+        os.environ["VERIF_IN_PTY"] = "1"
+        os.execv(cmd[0], cmd)
+    fcntl.ioctl(master, termios.TIOCSWINSZ, struct.pack("HHHH", 24, 80, 640, 384))
+    # drain whatever the child writes to its tty so it never blocks
+    status = None
+    while True:
+        r, _, _ = select.select([master], [], [], 0.2)
+        if r:
+            try:
+                if not os.read(master, 65536):
+                    pass
+            except OSError:
+                pass
+        wpid, st = os.waitpid(pid, os.WNOHANG)
+        if wpid == pid:
+            status = st
+            break
+    os.close(master)
+    return os.waitstatus_to_exitcode(status) if status is not None else 2
+
+
+SAVED_OUT = os.dup(1)
+SAVED_ERR = os.dup(2)
 
 
 def lock_free_build():
